@@ -163,15 +163,22 @@ def check_value_compare(chk):
         chk.ok('C11.F', f'antisymmetry: value_compare(a, b) = -value_compare(b, a) on all {n_pairs} pairs', count=n_pairs)
         chk.ok('C11.C', 'arrays compare element-wise then by length; objects by sorted (key, value) pairs then by size (part of the runs above)', count=64)
     before_unrec = len(chk.unrecognised)
+    before_find = len(chk.findings)
+    before_inst = len(chk.instances)
     try:
         _check_value_compare_ladder(chk)
     except Unrecognised as exc:
         chk.unrec(exc.rule or 'C11.P', exc.what, exc.where)
     if decided and not problems:
-        # the semantic run decided: what the read-back could not recognise is informational only
+        # the semantic run decided (all ordered pairs agree with the total value order): what the shape read-back could not recognise, or reads differently,
+        # is informational only - a differently spelled but equivalent comparison must not raise an alarm
         for u in chk.unrecognised[before_unrec:]:
             chk.note(f"ladder read-back: {u['rule']} {u['what']}")
         del chk.unrecognised[before_unrec:]
+        for f in chk.findings[before_find:]:
+            chk.note(f'ladder read-back (not confirmed by the semantic run, ignored): {f.rule} {f.what[:160]}')
+        del chk.findings[before_find:]
+        chk.instances[before_inst:] = [i for i in chk.instances[before_inst:] if i['verdict'] == 'OK']
 
 
 def _check_value_compare_ladder(chk):
